@@ -338,6 +338,12 @@ Definition helper_run (args : list bytes) (stdin : bytes) (env : list (bytes * b
         | _ => usage
         end
       else if bytes_eqb sub ((* "lines" *) [x6c; x69; x6e; x65; x73]) then hres 0 (concat (map (fun w => w ++ [NL]) a)) [] t
+      else if bytes_eqb sub ((* "lines8" *) [x6c; x69; x6e; x65; x73; x38]) then
+        (* the first word with a byte that is not UTF-8 behind it, the others as lines *)
+        match a with
+        | w :: r => hres 0 (w ++ [xff; NL] ++ concat (map (fun w => w ++ [NL]) r)) [] t
+        | [] => usage
+        end
       else if bytes_eqb sub ((* "print" *) [x70; x72; x69; x6e; x74]) then
         match a with [x] => hres 0 x [] t | _ => usage end
       else if bytes_eqb sub ((* "printerr" *) [x70; x72; x69; x6e; x74; x65; x72; x72]) then
